@@ -488,3 +488,136 @@ Proof.
       * intros Heq. rewrite Heq in Ci. rewrite Ci in Cj. inversion Cj. reflexivity.
       * intros Hc Heq. rewrite <- Heq in Cj. exact (I3 _ _ Hc _ _ _ Ci Cj).
 Qed.
+
+(* ================================================================ 6. at and above the capacity *)
+(* What the pseudonym of entry number n looks like for EVERY n (below 10^20 > usize::MAX): the letter and the
+   first three decimal digits of n ("{:03}" is a minimum width, DltChar4::from_str keeps four bytes).  Hence
+   entry n >= 1000 repeats the pseudonym of entry n / 10 — and of nothing else than the entries with the same
+   leading three digits. *)
+From Coq Require Import ZArith Zify.
+Ltac Zify.zify_post_hook ::= Z.div_mod_to_equations.
+
+Definition ten20 : N := 100000000000000000000.
+
+Fixpoint p10 (f : nat) : N := match f with O => 1 | S f' => 10 * p10 f' end.
+
+Lemma dec_aux_S f n acc :
+  dec_aux (S f) n acc = if n / 10 =? 0 then (48 + n mod 10) :: acc else dec_aux f (n / 10) ((48 + n mod 10) :: acc).
+Proof. reflexivity. Qed.
+
+Lemma dec_aux_acc f : forall n acc, dec_aux f n acc = dec_aux f n [] ++ acc.
+Proof.
+  induction f as [|f IH]; intros n acc; [reflexivity|].
+  rewrite !dec_aux_S. destruct (n / 10 =? 0); [reflexivity|].
+  rewrite (IH (n / 10) ((48 + n mod 10) :: acc)), (IH (n / 10) [48 + n mod 10]), <- app_assoc. reflexivity.
+Qed.
+
+Lemma dec_aux_fuel f : forall n acc, n < p10 (S f) -> dec_aux (S f) n acc = dec_aux (S (S f)) n acc.
+Proof.
+  induction f as [|f IH]; intros n acc Hn.
+  - rewrite (dec_aux_S 1), (dec_aux_S 0). cbn in Hn.
+    assert (E : n / 10 =? 0 = true) by (apply N.eqb_eq; lia). rewrite E. reflexivity.
+  - rewrite (dec_aux_S (S (S f))), (dec_aux_S (S f)). destruct (n / 10 =? 0); [reflexivity|].
+    apply IH. change (p10 (S (S f))) with (10 * p10 (S f)) in Hn. lia.
+Qed.
+
+Lemma p10_19 : p10 19 = 10000000000000000000. Proof. reflexivity. Qed.
+
+Lemma dec_step n : 10 <= n -> n < ten20 -> dec n = dec (n / 10) ++ [48 + n mod 10].
+Proof.
+  unfold ten20. intros H1 H2. unfold dec. change 20%nat with (S 19) at 1. rewrite dec_aux_S.
+  assert (E : n / 10 =? 0 = false) by (apply N.eqb_neq; lia). rewrite E.
+  change 19%nat with (S 18). change 20%nat with (S (S 18)).
+  rewrite (dec_aux_fuel 18) by (change (p10 (S 18)) with (p10 19); rewrite p10_19; lia).
+  apply dec_aux_acc.
+Qed.
+
+Lemma dec_nonempty n : exists x xs, dec n = x :: xs.
+Proof.
+  unfold dec. change 20%nat with (S 19). rewrite dec_aux_S. destruct (n / 10 =? 0); [eexists; eexists; reflexivity|].
+  rewrite dec_aux_acc. destruct (dec_aux 19 (n / 10) []) as [|x xs]; cbn; eexists; eexists; reflexivity.
+Qed.
+
+Lemma dec_three n : 100 <= n -> n < ten20 -> exists a b c rest, dec n = a :: b :: c :: rest.
+Proof.
+  unfold ten20. intros H1 H2.
+  rewrite (dec_step n) by (unfold ten20; lia). rewrite (dec_step (n / 10)) by (unfold ten20; lia).
+  destruct (dec_nonempty (n / 10 / 10)) as (x & xs & E). rewrite E.
+  destruct xs as [|y [|z zs]]; cbn; repeat eexists.
+Qed.
+
+Theorem pseudo_div10 letter n : 1000 <= n -> n < ten20 -> pseudo letter n = pseudo letter (n / 10).
+Proof.
+  unfold ten20. intros H1 H2. unfold pseudo. rewrite (dec_step n) by (unfold ten20; lia).
+  destruct (dec_three (n / 10)) as (a & b & c & rest & E); [lia|unfold ten20; lia|]. rewrite E.
+  destruct rest as [|d rest]; reflexivity.
+Qed.
+
+(* the entry number whose pseudonym entry n carries: n itself below 1000, else its leading three digits *)
+Fixpoint norm_aux (f : nat) (n : N) : N :=
+  match f with
+  | O => n
+  | S f' => if n <? 1000 then n else norm_aux f' (n / 10)
+  end.
+Definition lead3 (n : N) : N := norm_aux 20 n.
+
+Lemma norm_aux_pseudo letter f : forall n, n < ten20 -> pseudo letter (norm_aux f n) = pseudo letter n.
+Proof.
+  induction f as [|f IH]; intros n Hn; cbn [norm_aux]; [reflexivity|].
+  destruct (n <? 1000) eqn:E; [reflexivity|]. apply N.ltb_ge in E.
+  rewrite IH by (unfold ten20 in *; lia). symmetry. apply pseudo_div10; assumption.
+Qed.
+
+Lemma norm_aux_small f : forall n, n < 1000 * p10 f -> norm_aux f n < 1000.
+Proof.
+  induction f as [|f IH]; intros n Hn; cbn [norm_aux].
+  - cbn in Hn. lia.
+  - destruct (n <? 1000) eqn:E; [apply N.ltb_lt; exact E|]. apply IH.
+    change (p10 (S f)) with (10 * p10 f) in Hn. lia.
+Qed.
+
+Lemma lead3_small n : n < ten20 -> lead3 n < 1000.
+Proof.
+  intros H. apply norm_aux_small. unfold ten20 in H.
+  assert (E : p10 20 = 100000000000000000000) by reflexivity. rewrite E. lia.
+Qed.
+
+Lemma lead3_id n : n < 1000 -> lead3 n = n.
+Proof. intros H. unfold lead3. cbn [norm_aux]. apply N.ltb_lt in H. rewrite H. reflexivity. Qed.
+
+Theorem pseudo_eq_iff letter a b : LetterOK letter -> a < ten20 -> b < ten20 ->
+  (pseudo letter a = pseudo letter b <-> lead3 a = lead3 b).
+Proof.
+  intros L Ha Hb. rewrite <- (norm_aux_pseudo letter 20 a Ha), <- (norm_aux_pseudo letter 20 b Hb).
+  fold (lead3 a). fold (lead3 b). split.
+  - apply pseudo_inj; [exact L|apply lead3_small; exact Ha|apply lead3_small; exact Hb].
+  - intros E. rewrite E. reflexivity.
+Qed.
+
+(* a table of any size: entries i and j (numbers i+1, j+1 in order of first appearance) share a pseudonym
+   exactly when their numbers have the same leading three digits *)
+Definition collisions_as_stated (t : tbl) : Prop :=
+  forall i j k1 p1 k2 p2, nth_error t i = Some (k1, p1) -> nth_error t j = Some (k2, p2) ->
+    (p1 = p2 <-> lead3 (N.of_nat i + 1) = lead3 (N.of_nat j + 1)).
+
+Lemma WFT_collisions letter t : LetterOK letter -> WFT letter t -> blen t < ten20 -> collisions_as_stated t.
+Proof.
+  intros L W Hl i j k1 p1 k2 p2 Hi Hj.
+  assert (L1 : (i < length t)%nat) by (apply nth_error_Some; rewrite Hi; discriminate).
+  assert (L2 : (j < length t)%nat) by (apply nth_error_Some; rewrite Hj; discriminate).
+  rewrite (W _ _ _ Hi), (W _ _ _ Hj). unfold blen, ten20 in Hl.
+  apply pseudo_eq_iff; [exact L|unfold ten20; lia|unfold ten20; lia].
+Qed.
+
+Theorem anon_tables_collisions ck ms st' outs :
+  anon_run ck anon_init ms = Ok (st', outs) ->
+  (blen (a_ecus st') < ten20 -> collisions_as_stated (a_ecus st')) /\
+  (forall E, blen (apid_tbl st' E) < ten20 -> collisions_as_stated (apid_tbl st' E)) /\
+  (forall E A, blen (ctid_tbl st' E A) < ten20 -> collisions_as_stated (ctid_tbl st' E A)).
+Proof.
+  intros E. destruct (anon_run_renamed _ _ _ _ _ E) as (_ & _ & W & _). specialize (W WFS_init).
+  split; [|split].
+  - destruct W as (W1 & _). apply (WFT_collisions letter_E); [exact letter_E_ok|exact W1].
+  - intros E0. apply (WFT_collisions letter_A); [exact letter_A_ok|apply apid_tbl_WFT; exact W].
+  - intros E0 A0. apply (WFT_collisions letter_C); [exact letter_C_ok|apply ctid_tbl_WFT; exact W].
+Qed.
